@@ -115,6 +115,16 @@ func Register(p *Prop) { Props[p.ID] = p }
 // Bubble runs f inside a synctest bubble and reports a bubble deadlock (all
 // goroutines blocked for ever) instead of panicking.
 func Bubble(t *testing.T, f func()) (deadlock string) {
+	if raceBuild {
+		// a race report inside the bubble fails the bubble's test and synctest.Test then calls FailNow on the test it
+		// was given: contained in a sub-test, so that the worker goes on (the report itself is read from the race log)
+		t.Run("bubble", func(st *testing.T) { deadlock = bubble(st, f) })
+		return deadlock
+	}
+	return bubble(t, f)
+}
+
+func bubble(t *testing.T, f func()) (deadlock string) {
 	defer func() {
 		if r := recover(); r != nil {
 			deadlock = fmt.Sprint(r)
